@@ -86,7 +86,7 @@ def run(ctx):
     reproduced = len(ctx.violations) - before
     ctx.coverage["model_counterexamples"] = [{"instance": lab, "invariant": inv, "actions": [a["a"] for a in h]} for lab, inv, h in cex]
     ctx.coverage["model_counterexample_clauses_reproduced_by_the_code"] = reproduced
-    hists, rsim = K.simulated_histories(ctx, ctx.pick(120, 700), ctx.pick(12, 16), ctx.seed + 1, edit=ctx.pick(1, 2), **FULL)
+    hists, rsim = K.simulated_histories(ctx, ctx.pick(80, 700), ctx.pick(12, 16), ctx.seed + 1, edit=ctx.pick(1, 2), **FULL)
     sim_items = [{"id": 200000 + j, "hist": h, "B": K.BASE, "src": "simulated behaviour", "compare": True} for j, h in enumerate(hists)]
     sim_traces, sim_ids = K.run_replays(ctx, sim_items, compare=True)
     bad_r, st_r = K.judge(ctx, "TraceHooksTrades", sim_traces, "R-sim", sim_ids, parts=ctx.pick(4, 12))
